@@ -5,6 +5,7 @@ package main
 
 import (
 	"bytes"
+	"sort"
 	"runtime"
 	"context"
 	"fmt"
@@ -207,6 +208,12 @@ func init() {
 						}
 						rec(nil, 4)
 					}
+				}
+			}
+			// PUBLISH: topic followed by 0..3 bytes, for every QoS / flag combination
+			for fl := 0; fl < 16; fl++ {
+				for _, body := range []string{"000161", "00016112", "0001611234", "000161123456", "0000", "000012", "00001234", "0002c3a9", "0002c3a912", "0002c3a91234"} {
+					emit(fmt.Sprintf("%d %d %s", 0x30, fl, body))
 				}
 			}
 			for _, k := range kinds {
@@ -557,6 +564,9 @@ func execServe(f []string) Result {
 	if want, ok := inboundSpecTimeline(stream, withHandler); ok {
 		if got := strings.Join(timeline, " "); got != want {
 			r.Props = append(r.Props, viol("C04", "timeline", "inbound flow on %x: observed [%s], MQTT flow rules give [%s]", stream, got, want))
+			if handOvers(got) != handOvers(want) {
+				r.Props = append(r.Props, viol("C05", "inbound-delivered-fields", "messages handed over on %x: [%s], sent by the broker: [%s]", stream, handOvers(got), handOvers(want)))
+			}
 		}
 		r.Tags = append(r.Tags, "c04")
 	}
@@ -703,4 +713,16 @@ func init() {
 			}
 		},
 		exec: func(f []string) Result { return Result{Out: "unused"} }})
+}
+
+// handOvers extracts the sorted multiset of hand-over events of a timeline.
+func handOvers(tl string) string {
+	var hs []string
+	for _, t := range strings.Split(strings.ReplaceAll(tl, ") ", ")\n"), "\n") {
+		if strings.HasPrefix(t, "H(") {
+			hs = append(hs, t)
+		}
+	}
+	sort.Strings(hs)
+	return strings.Join(hs, " ")
 }
